@@ -9,3 +9,6 @@ import J1939.Props.C05
 #print axioms J1939.Props.C05.c05_broadcast_all
 #print axioms J1939.Props.C05.c05_ecu_gate
 #print axioms J1939.Props.C05.c05_listener_flags
+#print axioms J1939.Props.C05.c05_22_foreign_noop
+#print axioms J1939.Props.C05.c05_22_bystander
+#print axioms J1939.Props.C05.c05_22_pdu2_is_broadcast
